@@ -220,7 +220,7 @@ Definition trigk_of (t : trig) : trigk :=
   match t with TL => KL | TRD => KRD | TRG => KRG | TT => KT | TTS => KTS | TTO _ => KTO | TP _ => KP end.
 Definition trigk_eqb (a b : trigk) : bool :=
   match a, b with KL, KL | KRD, KRD | KRG, KRG | KT, KT | KTS, KTS | KTO, KTO | KP, KP => true | _, _ => false end.
-Definition trig_n (t : trig) : Z := match t with TP n => n | _ => -1 end.
+Definition trig_n (t : trig) : Z := match t with TP n => n | TTO w => w | _ => -1 end.   (* a rule may name the probe / the terminated actor *)
 
 Fixpoint find_rule (rs : list rule) (t : trig) (inst : nat) : list action :=
   match rs with
@@ -244,6 +244,14 @@ Definition new_actor (tok parent : ref) (r : nat) (inst : nat) : actor :=
   {| a_tok := tok; a_parent := parent; a_role := r; a_children := []; a_st := Alive; a_sysq := []; a_userq := [];
      a_inflight := None; a_susp := false; a_inst := inst; a_graceful := false; a_watchers := []; a_accidents := 0 |}.
 
+(* end of ActorOf: a parent that is terminating (it has already told its children to stop) or terminated stops the new
+   child at once — otherwise the termination in progress would wait for it for ever, or the child would outlive it *)
+Definition stop_if_parent_gone (s : kstate) (u : nat) (self t : ref) : R :=
+  match get s u with
+  | Some pa => if st_ge_terminating (a_st pa) then let '(s1, o1) := terminate s self t (a_graceful pa) in ok s1 o1 else ok s []
+  | None => ok s []
+  end.
+
 (* ctx.ActorOf by object u (address self) *)
 Definition spawn (s : kstate) (u : nat) (self t : ref) (r : nat) : R :=
   let '(s1, inst) := provide s t in                      (* newActorContext: provider.Provide() *)
@@ -256,7 +264,7 @@ Definition spawn (s : kstate) (u : nat) (self t : ref) (r : nat) : R :=
   | None =>
       let s3 := set_registry s2 (set_key t uid (registry s2)) in
       let s4 := upd_actor s3 u (fun a => w_children (insert_sorted t (a_children a)) a) in
-      ok (deliver_sys s4 t self SLaunch) []
+      stop_if_parent_gone (deliver_sys s4 t self SLaunch) u self t
   end.
 
 Section Behaviour.
